@@ -1,9 +1,18 @@
 # CPU_OFF and COMMON_ASSUME are injected by props.py
 _CFGS = [c for c in CPU_OFF if c["name"] in ("default", "purego", "alloff")]
+_SH = {"quick": 1, "thorough": 8}
+
+
+def _bin(name, run):
+    return {"name": name, "pkg": "./zz_verif/c13", "run": run, "configs": _CFGS, "quick_configs": ["default"], "shards": _SH}
+
+
 SPEC = {
     "bins": [
-        {"name": "c13", "pkg": "./zz_verif/c13", "run": ".", "configs": _CFGS, "quick_configs": ["default"],
-         "shards": {"quick": 1, "thorough": 16}},
+        # one test package, three processes so that the quick tier runs them side by side
+        _bin("c13-nist", "^TestC13(P384|GroupNIST)$"),
+        _bin("c13-edwards", "^TestC13(Goldilocks|FourQ|Ristretto)$"),
+        _bin("c13-bls", "^TestC13(BLSGroups|Pairing|HashToGroup)$"),
         {"name": "c13-ed25519", "pkg": "./sign/ed25519", "run": "^TestC13", "whitebox": True, "configs": _CFGS,
          "quick_configs": ["default"], "shards": {"quick": 1, "thorough": 4}},
     ],
